@@ -17,7 +17,7 @@ import random
 import codec
 from common import Sym
 
-COMPONENTS = ['escape', 'version', 'json']
+COMPONENTS = ['filter', 'escape', 'version', 'json']
 
 OPS = {'==': operator.eq, '!=': operator.ne, '<=': operator.le, '>=': operator.ge, '<': operator.lt, '>': operator.gt}
 OPNAMES = ['==', '!=', '<=', '>=', '<', '>']
